@@ -183,6 +183,44 @@ class _LoopContinue(Exception):
     pass
 
 
+def bracket_groups_eval(ctx, rule: str) -> bool:
+    """v2patterns._compile_pattern_re evaluated as a whole (its helpers included, `re.compile` by the standard library) on
+    patterns with optional groups, nested groups and escaped brackets inside and outside groups: the compiled expression
+    accepts exactly the texts with each group present or absent, `\[` / `\]` standing for brackets.  False when the
+    functions are outside what the evaluator handles."""
+    import re as _re
+    from sa.model import CannotFold, EvalError
+    prog = ctx.prog
+    fn = prog.function("v2patterns._compile_pattern_re") if prog.has_function("v2patterns._compile_pattern_re") else None
+    if fn is None:
+        return False
+    cases = [("MAJOR.MINOR[.PATCH]", ["1.2", "1.2.3"], ["1.2.", "1x2", "1.2.3.4"]),
+             ("vMAJOR[-TAG[NUM]]", ["v1", "v1-rc", "v1-rc2"], ["v1-", "v1rc", "v12-"]),
+             ("Latest: MAJOR.MINOR[ \\[TAG\\]]", ["Latest: 1.2", "Latest: 1.2 [beta]"], ["Latest: 1.2 ", "Latest: 1.2 beta", "Latest: 1.2 [beta"]),
+             ("\\[MAJOR\\]", ["[1]"], ["1", "[1", "1]"]),
+             ("MAJOR[.MINOR][-TAG]", ["1", "1.2", "1-rc", "1.2-rc"], ["1.", "1-", "1..2"])]
+    wrong: T.List[str] = []
+    try:
+        for pat, yes, no in cases:
+            try:
+                rx, _ys = prog.run_body(fn, {fn.params[0]: pat, "__strict__": None, "__calls__": True})
+            except EvalError as ex:
+                wrong.append(f"{pat!r}: {ex}")
+                continue
+            if not isinstance(rx, _re.Pattern):
+                raise CannotFold("the compiler does not return a compiled expression")
+            bad = [t_ for t_ in yes if not rx.fullmatch(t_)] + [t_ for t_ in no if rx.fullmatch(t_)]
+            if bad and len(wrong) < 3:
+                wrong.append(f"{pat!r} compiles to {rx.pattern!r}: wrong for {bad}")
+    except (CannotFold, TypeError, AttributeError, KeyError, ValueError, IndexError, _re.error) as ex:
+        ctx.observe(f"v2patterns._compile_pattern_re not evaluated as a whole ({type(ex).__name__}: {str(ex)[:80]})")
+        return False
+    ctx.check(rule, not wrong, "v2: optional groups, nested groups and escaped brackets compile to what they say (5 patterns evaluated, standard-library re)",
+              "v2patterns._replace_pattern_parts: brackets of a search pattern are not compiled to optional groups / literal brackets",
+              "; ".join(wrong[:2]) + ": the occurrence is not found, or a different text is matched and rewritten", loc=fn.loc(), witness={"pattern": wrong[0].split(" compiles")[0] if wrong else ""})
+    return True
+
+
 def _fold_guard(prog, fn, test: ast.AST, env: T.Dict[str, T.Any], depth: int = 0) -> T.Any:
     if isinstance(test, ast.Name) and test.id in env:
         return env[test.id]
@@ -497,27 +535,30 @@ def run(ctx) -> None:
     rpp = prog.function("v2patterns._replace_pattern_parts")
     ctx.visit(rpp.fq)
     subs = [c for c in ast.walk(rpp.node) if isinstance(c, ast.Call) and unparse(c.func) in ("re.subn", "re.sub")]
-    ctx.floor("R4", "bracket rewrite steps in _replace_pattern_parts", len(subs), 2)
-    want = {"[": "(?:", "]": ")?"}
-    found = {}
-    for c in subs:
-        pat, rep = const_str(c.args[0]), const_str(c.args[1])
-        ctx.require(pat is not None and rep is not None, "bracket rewrite uses non-constant regex")
-        tree = list(sre_parse.parse(pat))
-        ok = len(tree) == 2 and str(tree[0][0]) == "SUBPATTERN" and str(tree[1][0]) == "LITERAL" and chr(tree[1][1]) in "[]"
-        if ok:
-            br = chr(tree[1][1])
-            sub = list(tree[0][1][3])
-            alts = sub[0][1][1] if len(sub) == 1 and str(sub[0][0]) == "BRANCH" else None
-            kinds = sorted(str(list(a)[0][0]) + ":" + str(list(a)[0][1]) for a in alts) if alts else []
-            ok = kinds == ["AT:AT_BEGINNING", "NOT_LITERAL:92"] and rep == "\\1" + want[br]
-            found[br] = ok
-            ctx.check("R4", ok, f"_replace_pattern_parts: unescaped {br!r} (not preceded by backslash) -> {want[br]!r}",
-                      f"v2patterns._replace_pattern_parts: rewrite of {br!r} does not respect the backslash escape", f"{pat!r} -> {rep!r}", loc=rpp.loc(c))
-        else:
-            ctx.bad("R4", "v2patterns._replace_pattern_parts: bracket rewrite regex shape changed", f"{pat!r}", loc=rpp.loc(c))
-    ctx.check("R4", set(found) == {"[", "]"}, "both brackets have a rewrite step", "v2patterns._replace_pattern_parts: a bracket has no rewrite step",
-              f"{sorted(found)}", loc=rpp.loc())
+    # decided by evaluating the compiler on patterns with (nested) groups and escaped brackets; the shape of the two rewrite steps
+    # is looked at only when that is not possible
+    if not bracket_groups_eval(ctx, "R4"):
+        ctx.floor("R4", "bracket rewrite steps in _replace_pattern_parts", len(subs), 2)
+        want = {"[": "(?:", "]": ")?"}
+        found = {}
+        for c in subs:
+            pat, rep = const_str(c.args[0]), const_str(c.args[1])
+            ctx.require(pat is not None and rep is not None, "bracket rewrite uses non-constant regex")
+            tree = list(sre_parse.parse(pat))
+            ok = len(tree) == 2 and str(tree[0][0]) == "SUBPATTERN" and str(tree[1][0]) == "LITERAL" and chr(tree[1][1]) in "[]"
+            if ok:
+                br = chr(tree[1][1])
+                sub = list(tree[0][1][3])
+                alts = sub[0][1][1] if len(sub) == 1 and str(sub[0][0]) == "BRANCH" else None
+                kinds = sorted(str(list(a)[0][0]) + ":" + str(list(a)[0][1]) for a in alts) if alts else []
+                ok = kinds == ["AT:AT_BEGINNING", "NOT_LITERAL:92"] and rep == "\\1" + want[br]
+                found[br] = ok
+                ctx.check("R4", ok, f"_replace_pattern_parts: unescaped {br!r} (not preceded by backslash) -> {want[br]!r}",
+                          f"v2patterns._replace_pattern_parts: rewrite of {br!r} does not respect the backslash escape", f"{pat!r} -> {rep!r}", loc=rpp.loc(c))
+            else:
+                ctx.bad("R4", "v2patterns._replace_pattern_parts: bracket rewrite regex shape changed", f"{pat!r}", loc=rpp.loc(c))
+        ctx.check("R4", set(found) == {"[", "]"}, "both brackets have a rewrite step", "v2patterns._replace_pattern_parts: a bracket has no rewrite step",
+                  f"{sorted(found)}", loc=rpp.loc())
 
     # ---------------------------------------------------------------- R5 rendering
     fs = prog.function("v2version._format_segment")
